@@ -22,6 +22,7 @@ type blkBox struct {
 	Bt   int      `json:"bt"`
 	Bb   int      `json:"bb"`
 	H    int      `json:"h"`
+	Mh   int      `json:"mh"`
 	Kids []blkBox `json:"kids"`
 }
 
@@ -167,7 +168,11 @@ func c10Forest(f []blkBox, b *strings.Builder, pct bool) {
 		u = "%"
 	}
 	for _, x := range f {
-		b.WriteString(fmt.Sprintf(`<div style="margin-top:%d%s;margin-bottom:%d%s;border-top-width:%dpx;border-bottom-width:%dpx;height:%s">`, x.Mt, u, x.Mb, u, x.Bt, x.Bb, px(x.H)))
+		mh := ""
+		if x.Mh > 0 {
+			mh = fmt.Sprintf(";min-height:%dpx", x.Mh)
+		}
+		b.WriteString(fmt.Sprintf(`<div style="margin-top:%d%s;margin-bottom:%d%s;border-top-width:%dpx;border-bottom-width:%dpx;height:%s%s">`, x.Mt, u, x.Mb, u, x.Bt, x.Bb, px(x.H), mh))
 		c10Forest(x.Kids, b, pct)
 		b.WriteString("</div>")
 	}
